@@ -108,7 +108,11 @@ func c01Gen(r *rand.Rand) c01Case {
 	}
 	k.Resync = r.Intn(5) == 0
 	lim := func() int64 { return int64(1 + r.Intn(L+1)) }
-	switch r.Intn(8) {
+	switch r.Intn(10) {
+	case 8:
+		k.FirstSync, k.Scoped = lim(), lim()
+	case 9:
+		k.AdsDepth, k.FirstSync, k.Scoped = lim(), lim(), []int64{lim(), -1}[r.Intn(2)]
 	case 0, 1:
 	case 2:
 		k.AdsDepth = lim()
@@ -600,6 +604,9 @@ func c01Entries(c *vf.Ctx) {
 			if r.Intn(2) == 0 {
 				k.SegSub = lim()
 			}
+		} else if r.Intn(2) == 0 {
+			// the single-entry and all-links variants must not depend on the subscriber's segment size either
+			k.SegSub = int64(1 + r.Intn(3))
 		}
 		if r.Intn(2) == 0 {
 			k.Pre = uint(r.Intn(1 << uint(k.L)))
